@@ -14,7 +14,7 @@
    Only [exact lemma] statements followed by Print Assumptions. *)
 From Coq Require Import ZArith List Bool.
 From S3db Require Import Base KeyOrder RowMerge Tree Store KvProto Inst NodeCodec Mast.
-From S3db.proofs Require Import KeyOrderProofs TreeProofs ProtoProofs ExecProofs CommitProofs NamedProofs NodeCodecProofs MastProofs.
+From S3db.proofs Require Import KeyOrderProofs TreeProofs ProtoProofs ExecProofs CommitProofs NamedProofs NodeCodecProofs MastProofs MastLevelProofs MastCursorProofs MastNeProofs MastCanonProofs.
 Import ListNotations.
 Open Scope Z_scope.
 
@@ -71,6 +71,17 @@ Theorem C16_multilevel_insert_keeps_keys_increasing (m m' : mast V) k v : D k ->
 Proof. exact (mast_insert_refines m m' k v). Qed.
 End C16.
 
+(* the layout is a function of contents and height: two trees that keep the level discipline, link
+   no empty node and hold the same entries are the same tree node for node — equal contents
+   serialise to equal node objects *)
+Theorem C16_layout_is_determined_by_contents_and_height {V : Type} (lay : sval -> nat) (n1 n2 : mt V) h :
+  lvr lay h n1 -> lvr lay h n2 -> ne n1 -> ne n2 -> flat n1 = flat n2 -> n1 = n2.
+Proof. exact (canon_root lay n1 h n2). Qed.
+Theorem C16_reachable_trees_with_equal_contents_and_height_are_equal {V : Type} (bf : Z) (P : sval -> Prop) (m1 m2 : mast V) :
+  MInv2 bf P m1 -> MInv2 bf P m2 -> m_height m1 = m_height m2 -> mast_flat m1 = mast_flat m2 ->
+  node_of (m_root m1) = node_of (m_root m2).
+Proof. exact (reachable_layout_is_canonical bf P m1 m2). Qed.
+
 Theorem C16_node_codec_roundtrip n : links_ok n -> node_roundtrip n = n.
 Proof. exact (node_roundtrip_id n). Qed.
 Theorem C16_node_codec_keeps_shape n :
@@ -92,3 +103,5 @@ Print Assumptions C16_growing_a_tree_keeps_its_contents.
 Print Assumptions C16_shrinking_a_tree_keeps_its_contents.
 Print Assumptions C16_splitting_a_node_keeps_its_contents.
 Print Assumptions C16_multilevel_insert_keeps_keys_increasing.
+Print Assumptions C16_layout_is_determined_by_contents_and_height.
+Print Assumptions C16_reachable_trees_with_equal_contents_and_height_are_equal.
